@@ -1,13 +1,71 @@
 (* C15 — membership changes, the proved part: every step of the membership-change system
    (RaftCC.cxstep) is a sequence of micro steps of RaftSys.mstep F, PROVIDED every configuration
-   that is used lies in the family F.  "Used" is made simple and generous: every configuration
-   obtained by applying a prefix of a node's log to the boot configuration ([lenv]).
+   that is used lies in the family F.  "Used": every configuration obtained by applying a prefix of
+   a node's log up to its commit index to the boot configuration ([lenv]).
    Together with RaftInvMain.mreachable_inv this gives the safety theorems for all runs whose
    configurations stay inside a family with pairwise intersecting quorums (RaftCCSafety.v). *)
 Require Import List Arith Bool Lia.
 Require Import Raft.Quorum Raft.RaftModel Raft.RaftSys Raft.RaftLog Raft.RaftInv Raft.RaftInvBase
                Raft.RaftInvMain Raft.RaftRefine Raft.RaftStepProps Raft.RaftCC Raft.RaftCCInv.
 Import ListNotations.
+
+Definition st_node (st : nstate * conf * nat * nat) : nstate := fst (fst (fst st)).
+
+(* HardState monotonicity of the Ready loop (no restriction on the configurations) *)
+Section CCLoopHS.
+  Variable page1 : bool.
+  Variable id : nat.
+
+  Lemma apply_entry_hs : forall n c e, let n' := fst (apply_entry id (n, c) e) in
+    n_term n' = n_term n /\ n_vote n' = n_vote n /\ n_commit n <= n_commit n'.
+  Proof.
+    intros n c e. unfold apply_entry.
+    destruct (cc_of_payload (snd e)) as [op|]; [|cbn; repeat split; lia].
+    destruct (apply_cc c op) as [c'|]; [|cbn; repeat split; lia]. cbn [fst].
+    destruct (role_eqb _ Leader && member c' id && _); [|cbn; repeat split; lia].
+    destruct (maybe_commit_props (c_in c') (c_out c') (set_match (reset_match c c' (n_match n)) n)) as (A & B & _ & _ & E & _).
+    cbn zeta in *. cbn [set_match n_term n_vote n_commit] in *. repeat split; assumption.
+  Qed.
+
+  Lemma fold_apply_hs : forall ents n c, let n' := fst (fold_left (apply_entry id) ents (n, c)) in
+    n_term n' = n_term n /\ n_vote n' = n_vote n /\ n_commit n <= n_commit n'.
+  Proof.
+    induction ents as [|e ents IH]; intros n c; [cbn; repeat split; lia|].
+    cbn [fold_left]. destruct (apply_entry id (n, c) e) as [n1 c1] eqn:Ea.
+    destruct (apply_entry_hs n c e) as (A & B & C). cbn zeta in *. rewrite Ea in A, B, C. cbn [fst] in *.
+    destruct (IH n1 c1) as (A' & B' & C'). cbn zeta in *. repeat split; try congruence; try lia.
+  Qed.
+
+  Lemma ready_iter_hs : forall st, let st' := ready_iter page1 id st in
+    n_term (st_node st') = n_term (st_node st) /\ n_vote (st_node st') = n_vote (st_node st) /\
+    n_commit (st_node st) <= n_commit (st_node st').
+  Proof.
+    intros [[[n c] pend] applied]. unfold ready_iter, st_node. cbn [fst].
+    set (rdc := if applied <? n_commit n then (if page1 then S applied else n_commit n) else applied).
+    set (ents := firstn (rdc - applied) (skipn applied (n_log n))).
+    destruct (fold_left (apply_entry id) ents (n, c)) as [n1 c1] eqn:Ef.
+    destruct (fold_apply_hs ents n c) as (A & B & C). cbn zeta in *. rewrite Ef in A, B, C. cbn [fst] in *.
+    destruct ((applied <? rdc) && c_auto c1 && (applied <=? pend) && (pend <=? rdc) && role_eqb (n_role n1) Leader);
+      cbv beta iota zeta; cbn [fst snd].
+    - destruct (role_eqb _ Leader && tracked c1 id).
+      + destruct (leader_ack_props (c_in c1) (c_out c1) id (length (n_log n)) (set_log (n_log n1 ++ [(n_term n1, 120)]) n1)) as (T & V & _ & _ & Cm & _).
+        cbn zeta in *. cbn [set_log n_term n_vote n_commit] in *. repeat split; try congruence; try lia.
+      + cbn. repeat split; try congruence; try lia.
+    - destruct (role_eqb _ Leader && tracked c1 id); [|repeat split; try congruence; lia].
+      destruct (leader_ack_props (c_in c1) (c_out c1) id (length (n_log n)) n1) as (T & V & _ & _ & Cm & _).
+      cbn zeta in *. repeat split; try congruence; try lia.
+  Qed.
+
+  Lemma iter_hs : forall k st, let st' := iter k (ready_iter page1 id) st in
+    n_term (st_node st') = n_term (st_node st) /\ n_vote (st_node st') = n_vote (st_node st) /\
+    n_commit (st_node st) <= n_commit (st_node st').
+  Proof.
+    induction k as [|k IH]; intros st; [cbn; repeat split; lia|].
+    cbn [iter]. destruct (ready_iter_hs st) as (A & B & C). destruct (IH (ready_iter page1 id st)) as (A' & B' & C').
+    cbn zeta in *. repeat split; try congruence; try lia.
+  Qed.
+
+End CCLoopHS.
 
 Section CCRefine.
   Variable F : list (list nat * list nat).
@@ -18,20 +76,14 @@ Section CCRefine.
   Definition used_ok (c : conf) : Prop := In (c_in c, c_out c) F.
 
   (* every configuration along the log lies in the family *)
-  Definition lenv (L : elog) : Prop := forall j, used_ok (cfg_of boot (firstn j L)).
+  (* every configuration along the COMMITTED part of the log lies in the family (c = the commit index) *)
+  Definition lenv (L : elog) (c : nat) : Prop := forall j, j <= c -> used_ok (cfg_of boot (firstn j L)).
 
   Definition stepf (c : conf) (e : entry) : conf := apply_payload c (snd e).
 
   Lemma cfg_of_app : forall l1 l2, cfg_of boot (l1 ++ l2) = fold_left stepf l2 (cfg_of boot l1).
   Proof. intros l1 l2. unfold cfg_of. rewrite fold_left_app. reflexivity. Qed.
 
-  Lemma lenv_prefix : forall L x, lenv (L ++ x) -> lenv L.
-  Proof.
-    intros L x H j. destruct (le_lt_dec j (length L)) as [Hle|Hgt].
-    - rewrite <- (firstn_app_le _ L x j Hle). apply H.
-    - rewrite firstn_all2 by lia. specialize (H (length L)). rewrite firstn_app_le in H by lia.
-      rewrite firstn_all in H. exact H.
-  Qed.
 
   (* ---------------------------------------------------------------- single micro steps, by node value *)
   Lemma reaches_selfack : forall s id n k,
@@ -152,11 +204,11 @@ Section CCRefine.
   Proof. intros l a b H. replace b with (a + (b - a)) at 1 by lia. apply firstn_plus. Qed.
 
   Lemma ready_iter_spec : forall id s n c pend applied,
-    mreachable F s -> nodes s id = n -> loop_inv (n, c, pend, applied) -> lenv (n_log n) ->
-    (forall x, lenv (n_log n ++ x) \/ True) ->
+    mreachable F s -> nodes s id = n -> loop_inv (n, c, pend, applied) -> lenv (n_log n) (n_commit n) ->
+    True ->
     let st' := ready_iter page1 id (n, c, pend, applied) in
     let n' := fst (fst (fst st')) in
-    (lenv (n_log n') ->
+    (True ->
      exists s', reaches F s id n' [] s' /\ loop_inv st') /\
     (exists suf, n_log n' = n_log n ++ suf).
   Proof.
@@ -176,7 +228,7 @@ Section CCRefine.
     destruct (fold_apply_props id ents n c) as (Al & At & Ar & Ac). cbn zeta in *. rewrite Ef in Al, At, Ar, Ac. cbn [fst] in *.
     assert (Ec1 : c1 = cfg_of boot (firstn rdc (n_log n))).
     { destruct (reaches_apply_entries ents s id n c Hn) as (_ & _ & E2).
-      - intros k. rewrite Hfold. apply Henv.
+      - intros k. rewrite Hfold. apply Henv. lia.
       - rewrite Ef in E2. cbn [snd] in E2. rewrite E2.
         rewrite <- (firstn_all ents) at 1. rewrite Hfold. f_equal. f_equal.
         unfold ents. rewrite firstn_length, skipn_length. lia. }
@@ -193,15 +245,15 @@ Section CCRefine.
         - destruct (leader_ack_props (c_in c1) (c_out c1) id (length (n_log n)) n2) as (_ & _ & L & _). cbn zeta in L. rewrite L. cbn. rewrite Al. reflexivity.
         - cbn. rewrite Al. reflexivity. }
       split; [|exists [(n_term n1, 120)]; exact Hl3].
-      intros Henv'. rewrite Hl3 in Henv'.
+      intros _.
       destruct (reaches_apply_entries ents s id n c Hn) as (s1 & R1 & _).
-      { intros k. rewrite Hfold. apply Henv. }
+      { intros k. rewrite Hfold. apply Henv. lia. }
       rewrite Ef in R1. cbn [fst] in R1.
       pose proof (proj1 (proj2 R1)) as Hn1.
       destruct (reaches_propose s1 id n1 120 Hn1 Hr1) as [s2 R2]. fold n2 in R2.
       pose proof (proj1 (proj2 R2)) as Hn2.
       pose proof (reaches_trans F s id n1 [] s1 _ [] s2 R1 R2) as R12. cbn [app] in R12.
-      assert (Hok1 : used_ok c1) by (rewrite Ec1; apply Henv).
+      assert (Hok1 : used_ok c1) by (rewrite Ec1; apply Henv; lia).
       assert (Hreach2 : mreachable F s2) by (eapply msteps_reachable; [exact Hreach|exact (proj1 R12)]).
       assert (Hlinv : loop_inv (n3, c1, S (length (n_log n1)), rdc)).
       { unfold loop_inv. rewrite Hl3. split.
@@ -223,10 +275,10 @@ Section CCRefine.
       split; [|exists []; rewrite app_nil_r; exact Hl3].
       intros _.
       destruct (reaches_apply_entries ents s id n c Hn) as (s1 & R1 & _).
-      { intros k. rewrite Hfold. apply Henv. }
+      { intros k. rewrite Hfold. apply Henv. lia. }
       rewrite Ef in R1. cbn [fst] in R1.
       pose proof (proj1 (proj2 R1)) as Hn1.
-      assert (Hok1 : used_ok c1) by (rewrite Ec1; apply Henv).
+      assert (Hok1 : used_ok c1) by (rewrite Ec1; apply Henv; lia).
       assert (Hlinv : loop_inv (n3, c1, pend, rdc)).
       { unfold loop_inv. rewrite Hl3. split; [exact Ec1|].
         unfold n3. destruct (role_eqb (n_role n1) Leader && tracked c1 id); [|lia].
@@ -241,7 +293,6 @@ Section CCRefine.
   Qed.
 
   (* ---------------------------------------------------------------- the whole Ready loop *)
-  Definition st_node (st : nstate * conf * nat * nat) : nstate := fst (fst (fst st)).
 
   Lemma ready_iter_log : forall id st, exists suf, n_log (st_node (ready_iter page1 id st)) = n_log (st_node st) ++ suf.
   Proof.
@@ -271,7 +322,7 @@ Section CCRefine.
 
   Lemma iter_spec : forall id k s st,
     mreachable F s -> nodes s id = st_node st -> loop_inv st ->
-    lenv (n_log (st_node (iter k (ready_iter page1 id) st))) ->
+    lenv (n_log (st_node (iter k (ready_iter page1 id) st))) (n_commit (st_node (iter k (ready_iter page1 id) st))) ->
     exists s', reaches F s id (st_node (iter k (ready_iter page1 id) st)) [] s'.
   Proof.
     intros id. induction k as [|k IH]; intros s st Hreach Hn Hinv Henv.
@@ -279,10 +330,15 @@ Section CCRefine.
     - cbn [iter] in *. destruct st as [[[n c] pend] applied]. unfold st_node in Hn. cbn [fst] in Hn.
       destruct (iter_log id k (ready_iter page1 id (n, c, pend, applied))) as [suf2 E2].
       destruct (ready_iter_log id (n, c, pend, applied)) as [suf1 E1]. unfold st_node in E1 at 2. cbn [fst] in E1.
-      assert (Henv1 : lenv (n_log (st_node (ready_iter page1 id (n, c, pend, applied))))) by (rewrite E2 in Henv; eapply lenv_prefix; exact Henv).
-      assert (Henv0 : lenv (n_log n)) by (rewrite E1 in Henv1; eapply lenv_prefix; exact Henv1).
-      destruct (ready_iter_spec id s n c pend applied Hreach Hn Hinv Henv0 (fun _ => or_intror I)) as [Hspec _].
-      destruct (Hspec Henv1) as (s1 & R1 & Hinv1).
+      destruct (iter_hs page1 id k (ready_iter page1 id (n, c, pend, applied))) as (_ & _ & C2). cbn zeta in C2.
+      destruct (ready_iter_hs page1 id (n, c, pend, applied)) as (_ & _ & C1). cbn zeta in C1. unfold st_node in C1 at 1. cbn [fst] in C1.
+      assert (H9 : n_commit n <= length (n_log n)).
+      { pose proof (hK9 _ _ (mreachable_inv F HF s Hreach) id) as [H9 _]. unfold nd in H9. rewrite Hn in H9. exact H9. }
+      assert (Henv0 : lenv (n_log n) (n_commit n)).
+      { intros j Hj. specialize (Henv j ltac:(lia)). rewrite E2, E1 in Henv.
+        rewrite <- app_assoc in Henv. rewrite firstn_app_le in Henv by lia. exact Henv. }
+      destruct (ready_iter_spec id s n c pend applied Hreach Hn Hinv Henv0 I) as [Hspec _].
+      destruct (Hspec I) as (s1 & R1 & Hinv1).
       assert (Hreach1 : mreachable F s1) by (eapply msteps_reachable; [exact Hreach|exact (proj1 R1)]).
       destruct (IH s1 (ready_iter page1 id (n, c, pend, applied)) Hreach1 (proj1 (proj2 R1)) Hinv1 Henv) as [s2 R2].
       exists s2. exact (reaches_trans F s id _ [] s1 _ [] s2 R1 R2).
@@ -346,8 +402,9 @@ Section CCRefine.
   Lemma exec_cc_sim : forall s id ev pend,
     mreachable F s ->
     (forall m, ev = EvRecv m -> In m (msgs s) /\ m_to m = id) ->
-    lenv (n_log (nodes s id)) ->
-    lenv (n_log (fst (fst (exec_cc boot page1 id ev (nodes s id, pend))))) ->
+    lenv (n_log (nodes s id)) (n_commit (nodes s id)) ->
+    lenv (n_log (fst (fst (exec_cc boot page1 id ev (nodes s id, pend)))))
+         (n_commit (fst (fst (exec_cc boot page1 id ev (nodes s id, pend))))) ->
     exists s', reaches F s id (fst (fst (exec_cc boot page1 id ev (nodes s id, pend))))
                        (snd (exec_cc boot page1 id ev (nodes s id, pend))) s'.
   Proof.
@@ -355,7 +412,7 @@ Section CCRefine.
     pose proof (mreachable_inv F HF s Hreach) as I.
     unfold exec_cc in *. fold n in Henv'. fold n.
     set (c := node_cfg boot n) in *.
-    assert (Hokc : used_ok c) by (unfold c, node_cfg; apply Henv0).
+    assert (Hokc : used_ok c) by (unfold c, node_cfg; apply Henv0; apply le_n).
     destruct (match ev with EvRecv m => is_response (m_type m) && negb (tracked c (m_from m)) | _ => false end) eqn:Ed.
     { cbn [fst snd]. exists s. apply reaches_refl. }
     (* the call itself *)
@@ -429,55 +486,6 @@ Section CCHardState.
   Variable page1 : bool.
   Variable id : nat.
 
-  Lemma apply_entry_hs : forall n c e, let n' := fst (apply_entry id (n, c) e) in
-    n_term n' = n_term n /\ n_vote n' = n_vote n /\ n_commit n <= n_commit n'.
-  Proof.
-    intros n c e. unfold apply_entry.
-    destruct (cc_of_payload (snd e)) as [op|]; [|cbn; repeat split; lia].
-    destruct (apply_cc c op) as [c'|]; [|cbn; repeat split; lia]. cbn [fst].
-    destruct (role_eqb _ Leader && member c' id && _); [|cbn; repeat split; lia].
-    destruct (maybe_commit_props (c_in c') (c_out c') (set_match (reset_match c c' (n_match n)) n)) as (A & B & _ & _ & E & _).
-    cbn zeta in *. cbn [set_match n_term n_vote n_commit] in *. repeat split; assumption.
-  Qed.
-
-  Lemma fold_apply_hs : forall ents n c, let n' := fst (fold_left (apply_entry id) ents (n, c)) in
-    n_term n' = n_term n /\ n_vote n' = n_vote n /\ n_commit n <= n_commit n'.
-  Proof.
-    induction ents as [|e ents IH]; intros n c; [cbn; repeat split; lia|].
-    cbn [fold_left]. destruct (apply_entry id (n, c) e) as [n1 c1] eqn:Ea.
-    destruct (apply_entry_hs n c e) as (A & B & C). cbn zeta in *. rewrite Ea in A, B, C. cbn [fst] in *.
-    destruct (IH n1 c1) as (A' & B' & C'). cbn zeta in *. repeat split; try congruence; try lia.
-  Qed.
-
-  Lemma ready_iter_hs : forall st, let st' := ready_iter page1 id st in
-    n_term (st_node st') = n_term (st_node st) /\ n_vote (st_node st') = n_vote (st_node st) /\
-    n_commit (st_node st) <= n_commit (st_node st').
-  Proof.
-    intros [[[n c] pend] applied]. unfold ready_iter, st_node. cbn [fst].
-    set (rdc := if applied <? n_commit n then (if page1 then S applied else n_commit n) else applied).
-    set (ents := firstn (rdc - applied) (skipn applied (n_log n))).
-    destruct (fold_left (apply_entry id) ents (n, c)) as [n1 c1] eqn:Ef.
-    destruct (fold_apply_hs ents n c) as (A & B & C). cbn zeta in *. rewrite Ef in A, B, C. cbn [fst] in *.
-    destruct ((applied <? rdc) && c_auto c1 && (applied <=? pend) && (pend <=? rdc) && role_eqb (n_role n1) Leader);
-      cbv beta iota zeta; cbn [fst snd].
-    - destruct (role_eqb _ Leader && tracked c1 id).
-      + destruct (leader_ack_props (c_in c1) (c_out c1) id (length (n_log n)) (set_log (n_log n1 ++ [(n_term n1, 120)]) n1)) as (T & V & _ & _ & Cm & _).
-        cbn zeta in *. cbn [set_log n_term n_vote n_commit] in *. repeat split; try congruence; try lia.
-      + cbn. repeat split; try congruence; try lia.
-    - destruct (role_eqb _ Leader && tracked c1 id); [|repeat split; try congruence; lia].
-      destruct (leader_ack_props (c_in c1) (c_out c1) id (length (n_log n)) n1) as (T & V & _ & _ & Cm & _).
-      cbn zeta in *. repeat split; try congruence; try lia.
-  Qed.
-
-  Lemma iter_hs : forall k st, let st' := iter k (ready_iter page1 id) st in
-    n_term (st_node st') = n_term (st_node st) /\ n_vote (st_node st') = n_vote (st_node st) /\
-    n_commit (st_node st) <= n_commit (st_node st').
-  Proof.
-    induction k as [|k IH]; intros st; [cbn; repeat split; lia|].
-    cbn [iter]. destruct (ready_iter_hs st) as (A & B & C). destruct (IH (ready_iter page1 id st)) as (A' & B' & C').
-    cbn zeta in *. repeat split; try congruence; try lia.
-  Qed.
-
   (* term and commit never regress; the vote changes only with a term increase or from none *)
   Theorem exec_cc_hs_mono : forall ev n pend,
     hs_mono n (fst (fst (exec_cc boot page1 id ev (n, pend)))).
@@ -500,7 +508,7 @@ Section CCHardState.
       destruct ((n_commit n <? pend) || joint c && negb match op with CcLeave => true | _ => false end
                 || negb (joint c) && match op with CcLeave => true | _ => false end); cbn [fst]; apply Hp. }
     destruct (handle_cc id c ev n pend) as [[n1 out] pend1]. cbn [fst] in Hh.
-    destruct (iter_hs (2 * length (n_log n1) + 8) (n1, c, pend1, n_commit n)) as (A & B & C). cbn zeta in *.
+    destruct (iter_hs page1 id (2 * length (n_log n1) + 8) (n1, c, pend1, n_commit n)) as (A & B & C). cbn zeta in *.
     destruct (iter (2 * length (n_log n1) + 8) (ready_iter page1 id) (n1, c, pend1, n_commit n)) as [[[n2 c2] pend2] a2].
     unfold st_node in *. cbn [fst] in *.
     eapply hs_mono_trans; [exact Hh|]. split; [lia|split; [intros _; left; exact B|exact C]].
